@@ -3,7 +3,7 @@ from __future__ import annotations
 
 import ast
 
-from ..core import AnalysisError, call_attr, call_name, calls_in, func_params, norm, short
+from ..core import AnalysisError, call_attr, call_name, calls_in, func_params, norm, parent, short
 from ..driver import Knockout, sub_nth, sub_once
 from ..report import Ctx
 from ..rules import numeric, shapes
@@ -39,6 +39,7 @@ def run(ctx: Ctx) -> None:
     numeric.rule_raise_warning(ctx, [(DMF, "fidelity"), (DMF, "trace_distance"), (DMF, "partial_trace"),
                                      (METRICS, "Infidelity.evaluate"), (METRICS, "TraceDistance.evaluate")])
     rule_rep_dispatch(ctx)
+    rule_distance_whole_state(ctx)
     numeric.rule_hermitian_args(ctx, DMF, ["fidelity", "trace_distance"])
     numeric.rule_spectral_sqrt(ctx)
     # the cross-representation clause goes through convert_representation('dm') -> stabilizer_to_density (known finding shared with C08)
@@ -119,7 +120,38 @@ def rule_rep_dispatch(ctx: Ctx) -> None:
                              f"`{short(c)}` does not pair the target's data with the evaluated state's data", func=q)
 
 
+def rule_distance_whole_state(ctx: Ctx) -> None:
+    """dist.whole-state: the trace distance is not linear in a mixture — T(t, sum_i p_i rho_i) <= sum_i p_i T(t, rho_i), with equality only
+    in special cases — so TraceDistance.evaluate has to hand dmf.trace_distance the density matrix of the *whole* state.  A weighted sum
+    of per-branch distances (the shape that is right for the fidelity with a pure target) over-estimates it."""
+    repo = ctx.repo
+    m = repo.module(METRICS)
+    fn = repo.anchor(METRICS, "TraceDistance.evaluate")
+    ctx.touch(m, fn)
+    calls = [c for c in calls_in(fn) if (call_name(c) or "").split(".")[-1] == "trace_distance"]
+    if not calls:
+        raise AnalysisError("TraceDistance.evaluate: no trace_distance call")
+    for c in calls:
+        per_branch = None
+        p_ = parent(c)
+        while p_ is not None and p_ is not fn:
+            gens = p_.generators if isinstance(p_, (ast.ListComp, ast.GeneratorExp, ast.SetComp)) else ([p_] if isinstance(p_, ast.For) else [])
+            for g in gens:
+                if "mixture" in norm(g.iter):
+                    per_branch = g
+            p_ = parent(p_)
+        if per_branch is None:
+            ctx.ok("dist.whole-state", m, c, what="trace distance of the whole state")
+        else:
+            ctx.fail("dist.whole-state", m, c,
+                     f"TraceDistance.evaluate evaluates `{short(c, 60)}` once per branch of `{short(per_branch.iter)}` and combines the results: the trace "
+                     f"distance is not linear in the mixture, the weighted sum of branch distances is only an upper bound (target |00>, state "
+                     f"(|+0><+0| + |0+><0+|)/2: 0.7071 instead of 0.6404)", func="TraceDistance.evaluate",
+                     construct="TraceDistance.evaluate: per-branch trace distance")
+
+
 KNOCKOUTS = [
+    Knockout("trace-distance-branch-by-branch", "graphiq/metrics.py", sub_once("            else:\n                tmp_state = state.copy()\n                tmp_state.convert_representation(\"dm\")\n                trace_distance = dmf.trace_distance(", "            elif hasattr(state.rep_data, \"mixture\"):\n                trace_distance = sum(p_i * dmf.trace_distance(self.target.rep_data.data, t_i) for p_i, t_i in state.rep_data.mixture)\n            else:\n                tmp_state = state.copy()\n                tmp_state.convert_representation(\"dm\")\n                trace_distance = dmf.trace_distance("), "dist.whole-state", "per-branch"),
     Knockout("branch-overlap-not-squared", "graphiq/metrics.py", sub_once("[p_i * sfm.fidelity(tableau, t_i) for p_i, t_i in rep_data.mixture]", "[p_i * sfm.inner_product(tableau, t_i) for p_i, t_i in rep_data.mixture]"), "weight.fidelity", "not squared"),
     Knockout("infidelity-chain-tests-unconverted-state", "graphiq/metrics.py", sub_once("            elif isinstance(rep_data, MixedStabilizer):", "            elif isinstance(state.rep_data, MixedStabilizer):"), "chain.subject-drift", "Infidelity.evaluate"),
     Knockout("sqrtm-clip-at-tolerance", DMF, sub_once("    eig_vals = np.maximum(eig_vals, 0)\n", "    eig_vals = np.where(eig_vals > 1e-8, eig_vals, 0.0)\n"), "num.spectral-sqrt", "zeroes every eigenvalue below"),
